@@ -2,6 +2,8 @@
    The emission-size, one-probe-newest and data-intact clauses are connection-level (later).
    This file contains only statements closed by `exact`, and Print Assumptions. *)
 From Utp Require Import Base.Prelude Mtu.SegSizes Mtu.SegSizes_Proofs.
+From Utp Require Import Wire.SeqNr Wire.Header Tx.Segments Conn.Recovery Conn.Msg Conn.VSockRec Conn.VSock Conn.VSockRun
+  Conn.VObs Conn.C10_Pred Conn.C14C08_Pred Conn.C14_Pred2 Conn.VSock_Lemmas Conn.VSock_Inv Conn.C10_Proofs Conn.C14_Step.
 
 (* --- the search invariant: a path that delivers exactly the payload sizes <= P *)
 Theorem c14_search_invariant : forall ops P s s',
@@ -174,3 +176,94 @@ Print Assumptions c14_peer_payload_capped.
 Print Assumptions c14_ceiling_datagram.
 Print Assumptions c14_model_trace_ok.
 Print Assumptions c14_cfg.
+
+(* ================================================================== connection level (M3):
+   the step predicates of Conn/C14C08_Pred.v are theorems of every step of the model from a state
+   satisfying the invariant c14_inv (bounds of the size state, every segment at most the ceiling, the
+   only undelivered probe is the newest segment, the table ends at the offset), which every event
+   keeps and vsock_new establishes: hence of every trace.  No hypothesis on the configuration, the
+   transport script (EMSGSIZE, Pending, I/O errors at will), the peer or the clock. *)
+Theorem c14_inv_initial : forall (CC : Type) (cci : cc_iface CC) (mk : Z -> Z -> CC) (c : vconfig) (s : vsock CC),
+  vsock_new cci mk c = Some s -> c14_inv c s.
+Proof. exact @c14_inv_vsock_new. Qed.
+
+Theorem c14_inv_every_step : forall (CC : Type) (cci : cc_iface CC) (c : vconfig) (s : vsock CC) (o : vop),
+  c14_inv c s ->
+  c14_inv c (vstep_state cci s o) /\
+  c14_datagram_ok c (VSock_Lemmas.fstep_of cci s o) = true /\
+  c14_segments_ok c (VSock_Lemmas.fstep_of cci s o) = true /\
+  c14_wire_ok c (VSock_Lemmas.fstep_of cci s o) = true.
+Proof. exact @c14_step. Qed.
+
+(* every emitted datagram carries at most link MTU - IP - UDP - uTP header bytes of payload *)
+Theorem c14_datagram_ok_every_step : forall (CC : Type) (cci : cc_iface CC) (c : vconfig) (s : vsock CC) (o : vop),
+  c14_inv c s -> c14_datagram_ok c (VSock_Lemmas.fstep_of cci s o) = true.
+Proof. exact @c14_datagram_ok_step. Qed.
+
+Theorem c14_datagram_ok_every_trace : forall (CC : Type) (cci : cc_iface CC)
+    (mk : Z -> Z -> CC) (c : vconfig) (s0 : vsock CC) (ops : list vop),
+  vsock_new cci mk c = Some s0 -> forallb (c14_datagram_ok c) (ftrace cci s0 ops) = true.
+Proof. exact @c14_datagram_ok_trace. Qed.
+
+(* ordinary segments cut by a poll are at most the proven size, a segment is flagged as probe
+   exactly when it is larger, at most one undelivered probe and it is the newest segment,
+   floor <= mss <= max_ss <= ceiling *)
+Theorem c14_segments_ok_every_step : forall (CC : Type) (cci : cc_iface CC) (c : vconfig) (s : vsock CC) (o : vop),
+  c14_inv c s -> c14_segments_ok c (VSock_Lemmas.fstep_of cci s o) = true.
+Proof. exact @c14_segments_ok_step. Qed.
+
+Theorem c14_segments_ok_every_trace : forall (CC : Type) (cci : cc_iface CC)
+    (mk : Z -> Z -> CC) (c : vconfig) (s0 : vsock CC) (ops : list vop),
+  vsock_new cci mk c = Some s0 -> forallb (c14_segments_ok c) (ftrace cci s0 ops) = true.
+Proof. exact @c14_segments_ok_trace. Qed.
+
+(* every poll, whatever its result, keeps the invariant and emits only bounded datagrams *)
+Theorem c14_poll_keeps_inv : forall (CC : Type) (cci : cc_iface CC) (C F TB : Z),
+  1 <= F -> 0 <= C -> forall (s s' : vsock CC) (r : poll_result),
+  poll cci s = (s', r) -> J C F TB (poll_init s) -> J C F TB s'.
+Proof. exact @poll_J. Qed.
+
+(* the whole uTP part of every datagram (header + selective-ACK extension + payload) is at most
+   20 + the ceiling, and a datagram with the extension has no payload; no hypothesis: the extension
+   is written only when it fits the scratch buffer sized from the ceiling at creation *)
+Theorem c14_wire_ok_every_step : forall (CC : Type) (cci : cc_iface CC) (c : vconfig) (s : vsock CC) (o : vop),
+  c14_inv c s -> c14_wire_ok c (VSock_Lemmas.fstep_of cci s o) = true.
+Proof. exact @c14_wire_ok_step. Qed.
+
+Theorem c14_wire_ok_every_trace : forall (CC : Type) (cci : cc_iface CC)
+    (mk : Z -> Z -> CC) (c : vconfig) (s0 : vsock CC) (ops : list vop),
+  vsock_new cci mk c = Some s0 -> forallb (c14_wire_ok c) (ftrace cci s0 ops) = true.
+Proof. exact @c14_wire_ok_trace. Qed.
+
+(* the clauses are exercised: a probe is cut, fails with EMSGSIZE, is popped; a smaller probe and
+   ordinary segments at the new proven size follow *)
+Theorem c14_connection_nonvacuous :
+  exists w cfg ops,
+    vconfig_ok cfg = true /\ Forall op_msg_ok ops /\
+    existsb new_probe_cut (wtrace w cfg ops) = true /\
+    existsb new_ordinary_cut (wtrace w cfg ops) = true /\
+    existsb (probe_failed_step cfg) (wtrace w cfg ops) = true /\
+    existsb (big_datagram cfg) (wtrace w cfg ops) = true /\
+    forallb (c14_datagram_ok cfg) (wtrace w cfg ops) = true /\
+    forallb (c14_segments_ok cfg) (wtrace w cfg ops) = true /\
+    forallb (c14_wire_ok cfg) (wtrace w cfg ops) = true.
+Proof. exact c14_nonvacuous. Qed.
+
+Theorem c14_wire_ok_nonvacuous :
+  exists w cfg ops,
+    vconfig_ok cfg = true /\ Forall op_msg_ok ops /\
+    existsb sack_datagram (wtrace w cfg ops) = true /\
+    forallb (c14_wire_ok cfg) (wtrace w cfg ops) = true.
+Proof. exact c14_wire_nonvacuous. Qed.
+
+Print Assumptions c14_wire_ok_nonvacuous.
+Print Assumptions c14_inv_initial.
+Print Assumptions c14_inv_every_step.
+Print Assumptions c14_datagram_ok_every_step.
+Print Assumptions c14_datagram_ok_every_trace.
+Print Assumptions c14_segments_ok_every_step.
+Print Assumptions c14_segments_ok_every_trace.
+Print Assumptions c14_poll_keeps_inv.
+Print Assumptions c14_wire_ok_every_step.
+Print Assumptions c14_wire_ok_every_trace.
+Print Assumptions c14_connection_nonvacuous.
